@@ -28,7 +28,8 @@ RULE = ("pairs of samples: integer grids of side 1..5 in 1-3 dimensions (distanc
         "k in {1,2,3,5,8,|D|-1,|D|} and, in 8 % of the pairs, |D|+1 (must be refused); every pair is also built with the samples swapped and three permutation trials are "
         "evaluated. Sequences: NNDVI over 3-8 batches of changing size whose location shifts, k in {1,2,3,5}, sampling_times in "
         "{1,2,5,20,50}, alpha in {0.01,0.05,0.2,0.4,0.7}, np.random.seed(f(case, step)) before each update. Non-trivial: a pair "
-        "that builds with at least two pooled points; a sequence with at least one drift and one non-drift update.")
+        "that builds with at least two pooled points; a sequence with at least one drift and one non-drift update."
+        " Also: references handed over as int64 / float32 arrays (values exactly representable) with double batches.")
 SHARD = 60
 
 
